@@ -246,6 +246,34 @@ def evaluate(tree_json, line, path, behaviour):
     return info, fails
 
 
+def evaluate_invalid(tree_json, line):
+    """lines that end in a library error (unknown command / option): only the clauses about what is printed"""
+    tree = G.Tree.from_json(tree_json).with_builtin_help()
+    app, rec, cfgs = G.build_app(tree, "default", catch=True, decorate=decorate)
+    r = G.run_buffered(app, line, stdin=STDIN, catch=BaseException)
+    before = list(itertools.takewhile(lambda t: t != "--", line))
+    S = set(SPELLING_OF[t] for t in before if t in SPELLING_OF)
+    fails = []
+    if r.raised is not None:
+        return [("leak|%s|invalid-line" % type(r.raised).__name__, "run raised %r" % (r.raised,))]
+    printed = r.out + r.err
+    if rec.ids():
+        fails.append(("calls|invalid-line", "handlers %r ran" % (rec.ids(),)))
+    if "quiet" in S:
+        if printed != "":
+            fails.append(("quiet|output-not-suppressed|library-error-report|%s" % ("stdout" if r.out else "stderr"),
+                          "quiet run printed %r / %r" % (r.out[:120], r.err[:120])))
+    elif printed.strip() == "":
+        fails.append(("report|missing|invalid-line", "nothing printed, status %r" % (r.status,)))
+    elif "no-ansi" in S or "ansi" not in S:
+        if ESC in printed:
+            fails.append(("ansi|escape-%s|library-error-report" % ("under-no-ansi" if "no-ansi" in S else "without-switch"),
+                          "escape sequence in %r" % (printed[:160],)))
+    elif ESC + "[" not in printed:
+        fails.append(("ansi|no-decoration-under-ansi|library-error-report", "--ansi given, no escape sequence in %r" % (printed[:160],)))
+    return fails
+
+
 # ------------------------------------------------------------------------------ generators
 def base_lines(rng, tree, limit):
     """valid command lines of `tree`: (path tokens, rest tokens before '--', tail tokens or None); the first one is
@@ -333,7 +361,7 @@ def _bounded(ctx):
                      {"tree": tree.to_json(), "line": line, "path": path, "behaviour": behaviour})
 
     # ---- 1. one switch, every spelling, every slot (before '--' and in the tail), every behaviour
-    n_trees, n_lines = (4, 5) if ctx.quick else (40, 8)
+    n_trees, n_lines = (3, 4) if ctx.quick else (40, 8)
     ctx.check("single_switch_every_slot",
               "%d seeded trees (depth<=3, fan-out<=3, aliases, default/anonymous/hidden/disabled; every command takes any "
               "number of arguments) x up to %d valid lines each (path by names or aliases + words / --opt / --val=1 + "
@@ -438,13 +466,40 @@ def _bounded(ctx):
     ctx.done(exhaustive=False, note=rep.note())
 
 
+    # ---- 6. reports of the library's own errors obey quiet / ansi too
+    ctx.check("switches_on_library_error_reports",
+              "%d (tree, line) pairs x 3 ways of making the line invalid (unknown first word, unknown word then the path, "
+              "unknown option after the path) x {-q, --quiet, --ansi, --no-ansi, none} x every slot after the offending "
+              "token and before '--', and once after '--': quiet leaves both streams empty, --no-ansi / no switch print "
+              "a report without escape bytes, --ansi one with" % min(8, len(lines_pool)))
+    for tree, (path, rest, tail) in lines_pool[:8]:
+        if not path:
+            continue
+        for bad, first in ((["zz"] + rest, 1), (["zz"] + path + rest, 1), (path + ["--nope"] + rest, len(path) + 1)):
+            for sp in ("-q", "--quiet", "--ansi", "--no-ansi", None):
+                variants = []
+                if sp is None:
+                    variants.append(assemble(bad, [], tail, []))
+                else:
+                    variants.extend(assemble(bad, [], tail, [(slot, sp)]) for slot in range(first, len(bad) + 1))
+                    variants.append(assemble(bad, [], tail, [], [(0, sp)]))
+                for line in variants:
+                    ctx.case([tree.to_json(), line], nontrivial=sp is not None)
+                    for sig, what in evaluate_invalid(tree.to_json(), line):
+                        rep.fail(sig, "%s: %s" % (" ".join(line), what), {"tree": tree.to_json(), "line": line, "invalid": True})
+    ctx.done(exhaustive=True, note=rep.note())
+
+
 # ------------------------------------------------------------------------------ replay
 def replay_bounded(check_id, failure):
     w = failure.get("witness") or {}
     old_columns = os.environ.get("COLUMNS")
     os.environ["COLUMNS"] = "120"
     try:
-        info, fails = evaluate(w["tree"], w["line"], w["path"], w["behaviour"])
+        if w.get("invalid"):
+            info, fails = {}, evaluate_invalid(w["tree"], w["line"])
+        else:
+            info, fails = evaluate(w["tree"], w["line"], w["path"], w["behaviour"])
     finally:
         if old_columns is None:
             os.environ.pop("COLUMNS", None)
